@@ -94,7 +94,6 @@ services:
       u: {condition: service_completed_successfully, required: false}
 `
 	knownExt := `
-x-tune: {level: 9, tags: [top]}
 services:
   a:
     image: a
